@@ -20,6 +20,7 @@ func checkC08(p *Prog, r *Report) {
 	r.rule("C08.all-items: in each loop of URL.String that emits list items, no path round the loop leaves the accumulator unchanged (nothing selected is skipped)")
 	r.rule("C08.emission-guards: no parameter is emitted conditionally on the dynamic type of a value (no type-assertion outcome among the branch conditions that dominate an emission); page values are printed with fmt.Sprint of the stored value")
 	r.rule("C08.fields-accepted: String() prints a fields[T] parameter for every key of Params.Fields, whichever way the key got there, and does not print include; so NewParams may reject a fields[T] entry only for reasons computed from T, its name list, the schema and what this very iteration stored - never from state left by other parameters (every condition that dominates a rejecting return inside the loop over the parsed field selections is checked for its inputs)")
+	r.rule("C08.path-decoding: NewSimpleURL cuts the fragments out of the decoded path (url.URL.Path), the counterpart of String()'s PathEscape; C08.fields-default (shared with C07): no write to the field selections escapes the loop that replaces empty selections by all fields")
 	r.rule("C08.separator-trim: a trailing-separator trim x[:len(x)-k] after a loop is sound for zero iterations - the loop's source is known non-empty there, or the initial text has exactly k characters")
 	r.rule("R7 canonical order (shared with C11): the map of field selections is collected, sorted and emitted in sorted order, each name list is sorted before emission; R7 reader: in NewSimpleURL's loop over the query map every write goes to an entry keyed by the current name, happens under an exact name test (at most one iteration), or is a lazy initialisation, and the loop is left early only with an error")
 	r.assume("net/url: QueryEscape/PathEscape are inverted by Query()/Path parsing; fmt.Sprint of the int and string page values NewSimpleURL stores prints what strconv.Atoi / the raw value read (contract)")
@@ -44,6 +45,22 @@ func checkC08(p *Prog, r *Report) {
 	r.floor("unordered loops in URL.String", nUn, 3)
 	r.floor("sorts in URL.String", nSorts, 2)
 	checkC08FieldsAccepted(p, r)
+	checkFieldsDefault(p, r, "C08")
+	// the reader takes the path fragments from the decoded path: String() applies PathEscape to them
+	{
+		okPath, n := false, 0
+		eachInstr(ns, func(ins ssa.Instruction) {
+			c, ok := ins.(*ssa.Call)
+			if !ok || c.Common().StaticCallee() == nil || funcName(c.Common().StaticCallee()) != "parseFragments" {
+				return
+			}
+			n++
+			if base, fl, ok := fieldLoad(c.Common().Args[0]); ok && fl == "Path" && base == ssa.Value(ns.Params[0]) {
+				okPath = true
+			}
+		})
+		r.decide(okPath && n == 1, "C08.path-decoding", "NewSimpleURL:fragments-from-decoded-path", p.pos(ns.Pos()), "fragments are cut from url.URL.Path (decoded)", "the path fragments are not cut from the decoded path (url.URL.Path): String() escapes them with PathEscape, so an ID that needs escaping is escaped twice and does not parse back")
+	}
 	oa2 := &orderAnalysis{p: p, r: r, tainted: map[*ssa.Function]bool{}, allowErrExit: true, mapsOnly: true, rule: "R7.order-insensitive-reader"}
 	_, nUn2, _ := oa2.checkFunction(ns)
 	r.floor("map loops in NewSimpleURL", nUn2, 1)
@@ -904,4 +921,81 @@ func checkC08FieldsAccepted(p *Prog, r *Report) {
 		}
 	}
 	r.floor("rejecting returns in the field-selection loop of NewParams", n, 2)
+}
+
+// accumulatorsSkippable: the accumulators (non-integer header phis) of the loop
+// that some path round the loop leaves unchanged.
+func accumulatorsSkippable(ld *loopDesc) (all []string, skippable []string) {
+	for _, ins := range ld.header.Instrs {
+		phi, ok := ins.(*ssa.Phi)
+		if !ok {
+			break
+		}
+		if bt, isB := phi.Type().Underlying().(*types.Basic); isB && bt.Info()&types.IsInteger != 0 {
+			continue
+		}
+		name := phi.Comment
+		if name == "" {
+			name = phi.Name()
+		}
+		all = append(all, name)
+		mayUnchanged := map[ssa.Value]bool{phi: true}
+		for changed := true; changed; {
+			changed = false
+			for b := range ld.blocks {
+				for _, i2 := range b.Instrs {
+					ph2, ok := i2.(*ssa.Phi)
+					if !ok || mayUnchanged[ph2] || ph2 == phi {
+						continue
+					}
+					for _, e := range ph2.Edges {
+						if mayUnchanged[e] {
+							mayUnchanged[ph2] = true
+							changed = true
+						}
+					}
+				}
+			}
+		}
+		for i, e := range phi.Edges {
+			if ld.blocks[ld.header.Preds[i]] && mayUnchanged[e] {
+				skippable = append(skippable, name)
+				break
+			}
+		}
+	}
+	return
+}
+
+// checkToManyEmission: in MarshalResource the loop that writes a to-many
+// relationship's identifiers adds one identifier for every element of the ID
+// list (no iteration leaves the list being built unchanged).
+func checkToManyEmission(p *Prog, r *Report, prefix string) {
+	f := p.Fn("MarshalResource")
+	if f == nil {
+		r.fail("anchor MarshalResource not found")
+		return
+	}
+	n := 0
+	for _, ld := range findLoops(f) {
+		if ld.kind != "slice" {
+			continue
+		}
+		src := ld.src
+		if ex, ok := src.(*ssa.Extract); ok {
+			src = ex.Tuple
+		}
+		ta, ok := src.(*ssa.TypeAssert)
+		if !ok {
+			continue
+		}
+		if c, _ := callOf(ta.X); c == nil || !c.Common().IsInvoke() || c.Common().Method.Name() != "Get" {
+			continue
+		}
+		n++
+		all, skip := accumulatorsSkippable(ld)
+		good := len(all) > 0 && len(skip) == 0
+		r.decide(good, prefix+".to-many-emission", "MarshalResource:ids-loop", p.pos(loopPos(ld)), "one identifier per element of the ID list", "an element of a to-many relationship's ID list can be passed over when its identifiers are written: the linkage emitted is not the list of IDs the resource holds")
+	}
+	r.floor("to-many emission loops in MarshalResource", n, 1)
 }
